@@ -439,7 +439,7 @@ theorem no_double_certification (E : Env) (s : St) (evs : List Event) (h : Inv E
 
 /-- the initial state after a genesis certificate satisfies the invariant -/
 theorem inv_init (E : Env) (n g : Nat) : Inv E (init n g) := by
-  refine ⟨?_, List.Pairwise.nil, by simp [init], ?_, Nat.le_refl _⟩
+  refine ⟨?_, List.Pairwise.nil, by simp [init], ?_, Nat.zero_le _⟩
   · intro c hc e he; simp [init] at hc; subst hc; simp at he
   · intro c1 hc1 c2 hc2 e h1 h2; simp [init] at hc1; subst hc1; simp at h1
 
